@@ -284,7 +284,10 @@ def run_history(seed):
                        'is_schema_agreed_at_completion': done['flag'], 'is_schema_agreed_finally': verdict, 'polls_served_before_completion': done['npolls'],
                        'polls': [{'at': round(p['t'] - t0, 6), 'node': p['node'], 'local': str(p['local']), 'rows': [(a, str(v)) for a, v in p['rows']],
                                   'states': p['states'], 'single_version': ag} for p, (t, ag) in zip(complete, agreed_at)][-12:]}
-                if done['flag'] and not any(before):
+                if done['flag'] and not any(before) and not fired:
+                    viol.append(('ddl-result-records-agreement-without-any-agreeing-poll',
+                                 'the request completed with is_schema_agreed True; none of the %d polls served until then showed a single version' % done['npolls'], wit))
+                elif done['flag'] and not any(before):
                     viol.append(('ddl-result-records-agreement-although-poll-was-cut-short-%s' % ('by-client-timeout' if mode == 'ddl-timeout' else 'by-fault'),
                                  'the request completed (%s) after %.2fs with is_schema_agreed True; none of the %d polls served until then showed a single version' % (
                                      done['kind'], done['t'] - t0, done['npolls']), wit))
